@@ -236,7 +236,7 @@ pub fn explore(pool: &Pool, spec: &Spec, kf: &Known) -> Outcome {
         }
 
         if let Some(ps) = &spec.probe {
-            run_probes(pool, spec, ps, kf, cfg, &frontier, &mut jid, &mut stats, &mut violations, &mut known_lines);
+            run_probes(pool, spec, ps, kf, cfg, &frontier, &mut jid, &mut stats, &mut violations, &mut known_lines, t0 + std::time::Duration::from_secs_f64(cfg_deadline));
         }
         if !spec.tails.is_empty() {
             run_tails(pool, spec, kf, cfg, &frontier, &mut jid, &mut stats, &mut violations, &mut known_lines);
@@ -397,7 +397,7 @@ pub fn explore(pool: &Pool, spec: &Spec, kf: &Known) -> Outcome {
             }
             if let Some(ps) = &spec.probe {
                 if t0.elapsed().as_secs_f64() <= cfg_deadline {
-                    run_probes(pool, spec, ps, kf, cfg, &frontier, &mut jid, &mut stats, &mut violations, &mut known_lines);
+                    run_probes(pool, spec, ps, kf, cfg, &frontier, &mut jid, &mut stats, &mut violations, &mut known_lines, t0 + std::time::Duration::from_secs_f64(cfg_deadline));
                 } else {
                     capped = true;
                     stats.exhaustive = false;
@@ -492,6 +492,43 @@ fn consuming_twin(op: &Op) -> Option<Op> {
 ///  (iv) content of offset reads (through the model, class offset.content).
 #[allow(clippy::too_many_arguments)]
 fn run_probes(
+    pool: &Pool,
+    spec: &Spec,
+    ps: &ProbeSpec,
+    kf: &Known,
+    cfg: &Config,
+    nodes: &[Node],
+    jid: &mut u64,
+    stats: &mut Stats,
+    violations: &mut Vec<(Violation, String)>,
+    known_lines: &mut Vec<String>,
+    deadline: std::time::Instant,
+) {
+    // states are probed in groups so that memory stays bounded and the time share of the
+    // configuration is honoured; a capped probe phase is reported, never called exhaustive
+    let mut done = 0usize;
+    for group in nodes.chunks(150) {
+        if std::time::Instant::now() > deadline {
+            stats.exhaustive = false;
+            stats.cap_hit = Some(format!(
+                "time share used up while probing the depth-{} states of {}: {} of {} states probed",
+                group.first().map(|n| n.ops.len()).unwrap_or(0),
+                cfg.label(),
+                done,
+                nodes.len()
+            ));
+            return;
+        }
+        run_probes_chunk(pool, spec, ps, kf, cfg, group, jid, stats, violations, known_lines);
+        done += group.len();
+        if violations.len() >= 5 {
+            return;
+        }
+    }
+}
+
+#[allow(clippy::too_many_arguments)]
+fn run_probes_chunk(
     pool: &Pool,
     spec: &Spec,
     ps: &ProbeSpec,
